@@ -111,15 +111,29 @@ func (e *exhEnv) sym(bech string) string {
 	if bech == "" {
 		return "-"
 	}
-	if n, ok := e.name[bech]; ok {
+	// account identity, not spelling: bech32 is case-insensitive
+	if n, ok := e.name[strings.ToLower(bech)]; ok {
 		return n
 	}
 	return "?"
 }
 
+// bech maps a symbolic account name to the string a message carries. A trailing `^` spells the
+// same account in upper case (valid bech32, a different string), a trailing `~` in mixed case
+// (not valid bech32).
 func (e *exhEnv) bech(name string) string {
 	if name == "-" || name == "" {
 		return ""
+	}
+	if strings.HasSuffix(name, "^") {
+		return strings.ToUpper(e.bech(strings.TrimSuffix(name, "^")))
+	}
+	if strings.HasSuffix(name, "~") {
+		b := strings.ToUpper(e.bech(strings.TrimSuffix(name, "~")))
+		if b == "" {
+			return b
+		}
+		return strings.ToLower(b[:1]) + b[1:]
 	}
 	if a, ok := e.addr[name]; ok {
 		return a.String()
@@ -877,6 +891,10 @@ type exhGen struct {
 	// most orders of a history go to one market and one (asset, price) pair so that they can meet
 	mainM        uint32
 	mainA, mainP string
+	// payment-heavy histories: many payments, most of them to one target (several sources per
+	// target, several payments per source), so that the multi-source messages have material
+	payHeavy bool
+	mainT    string
 }
 
 func (g *exhGen) emit(op string) string {
@@ -1396,10 +1414,16 @@ func (g *exhGen) genCSettle() string {
 		if g.rng.Chance(5) {
 			in = in.Add(x.Amount...)
 		}
-		ins = append(ins, g.e.sym(x.Account)+":"+exhCoinsStr(in))
+		if in1 := g.part(in); g.rng.Chance(10) && !in1.Equal(in) {
+			in2, _ := in.SafeSub(in1...)
+			ins = append(ins, g.spellEntry(g.e.sym(x.Account))+":"+exhCoinsStr(in1), g.spellEntry(g.e.sym(x.Account))+":"+exhCoinsStr(in2))
+			g.out.Count("entries:account-listed-twice")
+		} else {
+			ins = append(ins, g.spellEntry(g.e.sym(x.Account))+":"+exhCoinsStr(in))
+		}
 		total = total.Add(in...)
 		if rest, neg := x.Amount.SafeSub(in...); !neg && !rest.IsZero() && g.rng.Chance(40) {
-			fees = append(fees, g.e.sym(x.Account)+":"+exhCoinsStr(g.part(rest)))
+			fees = append(fees, g.spellEntry(g.e.sym(x.Account))+":"+exhCoinsStr(g.part(rest)))
 		}
 	}
 	// split the total over one or two receivers
@@ -1414,7 +1438,12 @@ func (g *exhGen) genCSettle() string {
 		}
 		p2, _ := total.SafeSub(p1...)
 		if !p1.IsZero() && !p2.IsZero() {
-			outs = append(outs, r1+":"+exhCoinsStr(p1), g.otherUser(r1)+":"+exhCoinsStr(p2))
+			r2 := g.otherUser(r1)
+			if g.rng.Chance(15) {
+				r2 = r1 // the same receiver twice
+				g.out.Count("entries:account-listed-twice")
+			}
+			outs = append(outs, g.spellEntry(r1)+":"+exhCoinsStr(p1), g.spellEntry(r2)+":"+exhCoinsStr(p2))
 		}
 	}
 	if len(outs) == 0 {
@@ -1426,9 +1455,38 @@ func (g *exhGen) genCSettle() string {
 	return fmt.Sprintf("csettle admin=%s m=%d in=%s out=%s fees=%s", admin, c.MarketId, strings.Join(ins, ";"), strings.Join(outs, ";"), JoinOr(fees, ";"))
 }
 
+// spell writes an account name the way a message may spell it: mostly canonical, sometimes in
+// upper case (only used for fields the handlers parse before use).
+func (g *exhGen) spell(name string) string {
+	if name == "-" || name == "" || !g.rng.Chance(15) {
+		return name
+	}
+	g.out.Count("spelling:upper-field")
+	return name + "^"
+}
+
+// spellEntry spells the account of an account/amount entry (lists of MarketReleaseCommitments /
+// MarketCommitmentSettle): upper case now and then.
+func (g *exhGen) spellEntry(name string) string {
+	if g.rng.Chance(12) {
+		g.out.Count("spelling:upper-entry")
+		return name + "^"
+	}
+	return name
+}
+
 func (g *exhGen) genPay() string {
 	src := g.user()
 	tgt := g.otherUser(src)
+	// often a target that already has a payment from somebody else (several sources per target)
+	if ps := g.e.payments(); len(ps) > 0 && g.rng.Chance(45) {
+		if p := Pick(g.rng, ps); p.Target != "" && g.e.sym(p.Target) != src && g.e.sym(p.Target) != "?" {
+			tgt = g.e.sym(p.Target)
+		}
+	}
+	if g.payHeavy && g.rng.Chance(55) && g.mainT != src {
+		tgt = g.mainT
+	}
 	if g.rng.Chance(15) {
 		tgt = "-"
 	}
@@ -1456,7 +1514,7 @@ func (g *exhGen) genPaymentOp(kind int) string {
 		case 1:
 			return fmt.Sprintf("reject tgt=%s src=%s ext=x9", g.user(), g.user())
 		case 2:
-			return fmt.Sprintf("rejectall tgt=%s srcs=%s", g.user(), g.user())
+			return fmt.Sprintf("rejectall tgt=%s srcs=%s", g.spell(g.user()), g.spell(g.user()))
 		case 3:
 			return fmt.Sprintf("cancelpay src=%s exts=x9", g.user())
 		default:
@@ -1464,6 +1522,10 @@ func (g *exhGen) genPaymentOp(kind int) string {
 		}
 	}
 	p := Pick(g.rng, ps)
+	if multi := g.multiSourcePayments(ps); len(multi) > 0 && (kind == 2 || (g.payHeavy && g.rng.Chance(30))) && g.rng.Chance(75) {
+		// a target that several accounts have payments for: reject them in one message
+		kind, p = 2, Pick(g.rng, multi)
+	}
 	src, tgt := g.e.sym(p.Source), g.e.sym(p.Target)
 	switch kind {
 	case 0:
@@ -1486,17 +1548,9 @@ func (g *exhGen) genPaymentOp(kind int) string {
 		if t == "-" || g.rng.Chance(10) {
 			t = g.user()
 		}
-		return fmt.Sprintf("reject tgt=%s src=%s ext=%s", t, src, p.ExternalId)
+		return fmt.Sprintf("reject tgt=%s src=%s ext=%s", g.spell(t), g.spell(src), p.ExternalId)
 	case 2:
-		t := tgt
-		if t == "-" {
-			t = g.user()
-		}
-		srcs := []string{src}
-		if g.rng.Chance(30) {
-			srcs = append(srcs, g.otherUser(src))
-		}
-		return fmt.Sprintf("rejectall tgt=%s srcs=%s", t, strings.Join(srcs, "|"))
+		return g.genRejectAll(ps, p)
 	case 3:
 		exts := []string{p.ExternalId}
 		for _, q := range ps {
@@ -1507,7 +1561,10 @@ func (g *exhGen) genPaymentOp(kind int) string {
 		if g.rng.Chance(5) {
 			exts = append(exts, "x8")
 		}
-		return fmt.Sprintf("cancelpay src=%s exts=%s", src, strings.Join(exts, "|"))
+		if g.rng.Chance(4) {
+			exts = append(exts, exts[0]) // ValidateBasic: duplicate entry
+		}
+		return fmt.Sprintf("cancelpay src=%s exts=%s", g.spell(src), strings.Join(exts, "|"))
 	default:
 		nt := g.user()
 		if g.rng.Chance(15) {
@@ -1516,8 +1573,139 @@ func (g *exhGen) genPaymentOp(kind int) string {
 		if g.rng.Chance(8) {
 			nt = tgt
 		}
-		return fmt.Sprintf("retarget src=%s ext=%s tgt=%s", src, p.ExternalId, nt)
+		return fmt.Sprintf("retarget src=%s ext=%s tgt=%s", g.spell(src), p.ExternalId, g.spell(nt))
 	}
+}
+
+// genRejectAll builds a MsgRejectPayments for the target of payment p (or somebody, if it has
+// none): a list of up to five source entries drawn from the accounts that have a payment to that
+// target, each entry spelled in lower or upper case (rarely mixed case = invalid), an account may
+// be listed again anywhere in the list (directly after itself or further on, in the same spelling
+// = rejected by ValidateBasic, or in the other one = the same account once more), and
+// sometimes an account without a payment to the target is listed.
+func (g *exhGen) genRejectAll(ps []*exchange.Payment, p *exchange.Payment) string {
+	t := g.e.sym(p.Target)
+	if t == "-" || t == "?" {
+		t = g.user()
+	}
+	// the accounts with a payment to t, the picked payment's source first
+	accts := []string{g.e.sym(p.Source)}
+	for _, q := range ps {
+		if n := g.e.sym(q.Source); g.e.sym(q.Target) == t && !exhContains(accts, n) {
+			accts = append(accts, n)
+		}
+	}
+	rest := accts[1:]
+	for i := len(rest) - 1; i > 0; i-- {
+		j := g.rng.Intn(i + 1)
+		rest[i], rest[j] = rest[j], rest[i]
+	}
+	n := 1 + g.rng.Intn(len(accts))
+	if g.rng.Chance(60) {
+		n = len(accts)
+	}
+	accts = accts[:n]
+	if g.rng.Chance(50) { // any order
+		i := g.rng.Intn(len(accts))
+		accts[0], accts[i] = accts[i], accts[0]
+	}
+	if g.rng.Chance(8) {
+		accts = append(accts, g.user()) // maybe one without a payment to t (or one more repeat)
+	}
+	var srcs []string
+	for _, a := range accts {
+		sp := ""
+		switch x := g.rng.Intn(100); {
+		case x < 25:
+			sp = "^"
+		case x < 28:
+			sp = "~"
+		}
+		srcs = append(srcs, a+sp)
+	}
+	// list an account again: mostly in the spelling the list does not have yet (the same string
+	// twice does not pass ValidateBasic), anywhere in the list, often NOT next to itself
+	pct := 40
+	if len(accts) > 1 {
+		pct = 65
+	}
+	for k := 0; k < 2 && len(srcs) < 5 && g.rng.Chance(pct); k++ {
+		i := g.rng.Intn(len(srcs))
+		base := strings.TrimRight(srcs[i], "^~")
+		again := base
+		if exhContains(srcs, base) {
+			again = base + "^"
+		}
+		if exhContains(srcs, again) && !g.rng.Chance(30) {
+			break
+		}
+		if g.rng.Chance(8) {
+			again = srcs[i]
+		}
+		at := g.rng.Intn(len(srcs) + 1)
+		if g.rng.Chance(50) && len(srcs) > 1 { // as far from srcs[i] as the list allows
+			at = 0
+			if i < len(srcs)-1-i || (i == len(srcs)-1-i && g.rng.Bool()) {
+				at = len(srcs)
+			}
+		}
+		srcs = append(srcs[:at], append([]string{again}, srcs[at:]...)...)
+	}
+	// classify the list for the distribution counters
+	first := map[string]int{}
+	strs := map[string]bool{}
+	cls := "distinct"
+	for i, sp := range srcs {
+		a := strings.TrimRight(sp, "^~")
+		if strs[sp] {
+			cls = "same-string-twice"
+			break
+		}
+		strs[sp] = true
+		if j, ok := first[a]; ok {
+			if cls == "distinct" || cls == "respelled-adjacent" {
+				if i-j > 1 {
+					cls = "respelled-apart"
+				} else {
+					cls = "respelled-adjacent"
+				}
+			}
+		}
+		first[a] = i
+	}
+	g.out.Count("rejectall-list:" + cls)
+	g.out.Count(fmt.Sprintf("rejectall-len:%d", len(srcs)))
+	return fmt.Sprintf("rejectall tgt=%s srcs=%s", g.spell(t), strings.Join(srcs, "|"))
+}
+
+// multiSourcePayments returns the payments whose target has payments from at least two accounts.
+func (g *exhGen) multiSourcePayments(ps []*exchange.Payment) []*exchange.Payment {
+	srcs := map[string]map[string]bool{}
+	for _, p := range ps {
+		if p.Target == "" {
+			continue
+		}
+		if srcs[p.Target] == nil {
+			srcs[p.Target] = map[string]bool{}
+		}
+		srcs[p.Target][strings.ToLower(p.Source)] = true
+	}
+	var res []*exchange.Payment
+	for _, p := range ps {
+		if len(srcs[p.Target]) > 1 {
+			res = append(res, p)
+		}
+	}
+	return res
+}
+
+func exhContains(xs []string, x string) bool {
+	for _, y := range xs {
+		if y == x {
+			return true
+		}
+	}
+	return false
 }
 
 func (g *exhGen) genSend() string {
@@ -1674,6 +1862,10 @@ func driveExhold(t *testing.T, rng *RNG, n int, out *Out) {
 		if g.mainA == g.mainP {
 			g.mainA, g.mainP = "apple", "usd"
 		}
+		g.payHeavy, g.mainT = rng.Chance(30), Pick(rng, exhUsers)
+		if g.payHeavy {
+			out.Count("history:payment-heavy")
+		}
 		g.emit(e.marketLine(1))
 		g.emit(e.marketLine(2))
 		genesis, gholds := "", map[string]sdk.Coins{}
@@ -1706,7 +1898,11 @@ func driveExhold(t *testing.T, rng *RNG, n int, out *Out) {
 		steps := 12 + rng.Intn(19)
 		for s := 0; s < steps; s++ {
 			var op string
-			switch k := rng.Intn(100); {
+			k := rng.Intn(100)
+			if g.payHeavy && rng.Chance(50) {
+				k = 78 + rng.Intn(15) // pay / payment op
+			}
+			switch {
 			case k < 15:
 				op = g.genAsk()
 			case k < 30:
@@ -1726,7 +1922,7 @@ func driveExhold(t *testing.T, rng *RNG, n int, out *Out) {
 			case k < 85:
 				op = g.genPay()
 			case k < 93:
-				op = g.genPaymentOp(Pick(rng, []int{0, 0, 0, 1, 2, 3, 3, 4, 4}))
+				op = g.genPaymentOp(Pick(rng, []int{0, 0, 0, 1, 2, 2, 2, 3, 3, 4, 4}))
 			case k < 96:
 				op = g.genSend()
 			case k < 98:
